@@ -245,8 +245,8 @@ ItemClass(p) ==
     ELSE LET nc == NameClass(p.nm) IN
          IF nc = "bad" THEN <<"bad", "name">>
          ELSE IF ~IdxOK(p) THEN <<"bad", "index">>
+         ELSE IF nc = "req" THEN <<"bad", "req-unknown">>           \* with or without a value
          ELSE IF ~p.eq THEN <<"unk", "no-equals">>
-         ELSE IF nc = "req" THEN <<"bad", "req-unknown">>
          ELSE IF nc = "address" THEN <<AddrClass(p.kd), "address">>
          ELSE IF nc = "amount" THEN (IF AmtOK(AmtRec(p.raw)) THEN <<"ok", "">> ELSE <<"bad", "amount">>)
          ELSE IF nc = "memo" THEN <<MemoClass(p.raw), "memo-encoding">>
